@@ -47,9 +47,9 @@ CHECKS = {
  'C01': dict(
    text='xbasic_fixed_string<char,N> (packed-size layout N=7 and N=255, size-field layout N=256, strlen-sized layout N=7, throwing policy) is lowered on every run; the storage classes (size/set_size/adjust_size), the error policy, the counted core of the API '
         '(assign, push/pop_back, append, resize, insert, erase, replace, copy, clear, compare, at/[]/front/back, the character search overloads with explicit and with DEFAULTED positions) and, for the small packed configuration, the forwarding overloads '
-        '(sources given as another fixed string, as a std::string, as an iterator range; positions given as iterators incl. end() and empty ranges; +=, resize(n), substr, swap, compare with std::string) are proved against the std::basic_string specification '
+        '(sources given as another fixed string, as a std::string, as a NUL-terminated C string of up to 4N characters, as an iterator range; positions given as iterators incl. end() and empty ranges; +=, resize(n), substr, swap, compare with std::string) are proved against the std::basic_string specification '
         'written over the abstract view (len, chars, terminator) from ANY wf state - every length 0..N including exactly N, stale bytes after the terminator - with a ghost character index covering the whole N+1 buffer.',
-   note=PROOF_NOTE + 'char only; silent policy, initializer_list / NUL-terminated C-string overloads (unbounded strlen), operator+, stream operators and counted-needle searches are not under contract (evidence.not_reached); copy-loop functions and the forwarding overloads at N=255/256 only in the thorough tier. One recorded finding: resize(count) pads with a blank, std::string with CharT().',
+   note=PROOF_NOTE + 'char only; silent policy, initializer_list overloads, C-string arguments longer than 4N (the strlen loop of the model is unwound to that bound), operator+, stream operators and counted-needle searches are not under contract (evidence.not_reached); copy-loop functions and the forwarding overloads at N=255/256 only in the thorough tier. One recorded finding: resize(count) pads with a blank, std::string with CharT().',
    technique='CBMC code contracts (DFCC) on mechanically lowered code; loop contracts in the char_traits model; ghost index', design='4 C01'),
  'C02': dict(
    text='Same lowered code and contracts as C01, claimed for their exceptional and safety parts: every operation throws length_error exactly when the result would exceed N and out_of_range exactly when a position exceeds the relevant length, '
